@@ -28,7 +28,7 @@ struct C11 : Property
 	std::vector<std::string> probes() const override
 	{
 		return {"set.grow_from_inline_to_heap", "set.grow_heap_to_bigger_heap", "set.shrink_within_heap", "set.shrink_within_inline", "set.to_zero_length_from_heap", "set.same_length",
-		        "set.embedded_nul", "set.non_utf8", "set.refused_length", "set.alloc_failed_contents_kept", "roundtrip.with_nul", "copy.of_heap_string", "strlen_variant_truncates", "serialize.colour_flag"};
+		        "set.embedded_nul", "set.non_utf8", "set.refused_length", "set.alloc_failed_contents_kept", "roundtrip.with_nul", "copy.of_heap_string", "strlen_variant_truncates", "serialize.colour_flag", "set.from_own_serialization", "set.from_slice_of_own_contents"};
 	}
 
 	static std::string gen_bytes(Rng &r, size_t prev)
@@ -92,6 +92,13 @@ struct C11 : Property
 				prev[node] = op.data.size();
 				break;
 			case 5:
+				if (r.chance(1, 2))
+				{
+					op.kind = "selfsrc";
+					op.a = {node, (int64_t)r.below(4), (int64_t)r.below(1000), (int64_t)r.below(1000)};
+					prev[node] = 8; // unknown afterwards
+					break;
+				}
 				op.kind = "badlen";
 				op.a = {node, (int64_t)INT_MAX - (int64_t)r.below(2)}; // a length no 4-byte source and no allocator can satisfy
 				break;
@@ -304,6 +311,42 @@ struct C11 : Property
 				else
 					ctx.fail("C11:wrong-return", "op %zu: set returned %d", oi, rc);
 			}
+			else if (op.kind == "selfsrc")
+			{
+				// sources that alias memory the node itself owns (both are pointers the API hands out and keeps valid): its own cached
+				// serialization, or a non-overlapping slice of its own current contents
+				Node &n = ensure(ni);
+				std::string want;
+				int rc;
+				if (op.arg(1) & 1)
+				{
+					const char *t = LIB(json_object_to_json_string_ext(n.o, JSON_C_TO_STRING_PLAIN));
+					if (!t)
+						ctx.fail("C11:serialize-failed", "op %zu: serialization failed without a fault", oi);
+					want = t; // C string: the escaped text contains no NUL
+					rc = (op.arg(1) & 2) ? LIB(json_object_set_string_len(n.o, t, (int)want.size())) : LIB(json_object_set_string(n.o, t));
+					ctx.probe("set.from_own_serialization");
+				}
+				else
+				{
+					size_t cur = n.bytes.size();
+					size_t k = cur / 2 ? 1 + (size_t)op.arg(2) % (cur / 2) : 0; // 1 <= k <= cur/2
+					size_t off = k ? k + (size_t)op.arg(3) % (cur - 2 * k + 1) : 0; // k <= off, off + k <= cur: no overlap with [0,k)
+					if (k == 0)
+					{
+						verify(ctx, n, oi, "selfsrc-skipped", false);
+						continue;
+					}
+					want = n.bytes.substr(off, k);
+					const char *base = LIB(json_object_get_string(n.o));
+					rc = LIB(json_object_set_string_len(n.o, base + off, (int)k));
+					ctx.probe("set.from_slice_of_own_contents");
+				}
+				if (rc != 1)
+					ctx.fail("C11:wrong-return", "op %zu: set from a source owned by the node returned %d", oi, rc);
+				n.bytes = want;
+				cov += (op.arg(1) & 1) ? "|ser" : "|slice";
+			}
 			else if (op.kind == "badlen")
 			{
 				Node &n = ensure(ni);
@@ -407,7 +450,7 @@ struct C11 : Property
 			ctx.log("op %zu %s node=%d len=%zu", oi, op.kind.c_str(), ni, nodes[ni].bytes.size());
 			ctx.cover(cov);
 			for (auto &n : nodes)
-				verify(ctx, n, oi, op.kind.c_str(), op.kind == "set" || op.kind == "new" || oi + 1 == p.ops.size());
+				verify(ctx, n, oi, op.kind.c_str(), op.kind == "set" || op.kind == "new" || op.kind == "selfsrc" || oi + 1 == p.ops.size());
 		}
 		for (auto &n : nodes)
 			if (n.o)
